@@ -53,6 +53,10 @@ impl<T> Reference<T> {
     pub fn from_raw_safe(p: *mut T) -> Self {
         Reference(ReferenceUnsafe(p))
     }
+    /// C16.S: safe mutable access to the payload of an existing Reference.
+    pub fn payload_mut(&mut self) -> &mut ReferenceUnsafe<T> {
+        &mut self.0
+    }
 }
 
 /// C16.U: an unsafe operation in a safe fn with no provenance justification.
